@@ -10,20 +10,23 @@ import (
 	"encoding/base64"
 	"math/big"
 	"net"
+	"strings"
 	"time"
 
 	"github.com/hashicorp/nodeenrollment"
-	"github.com/hashicorp/nodeenrollment/registration"
 	nodetls "github.com/hashicorp/nodeenrollment/tls"
 	"github.com/hashicorp/nodeenrollment/types"
 	"github.com/hashicorp/nodeenrollment/zzverif/vf"
 	"github.com/hashicorp/nodeenrollment/zzverif/vfs"
 	"google.golang.org/protobuf/proto"
-	"google.golang.org/protobuf/types/known/timestamppb"
 )
 
-func init() { VfHarnesses["VerifC07RogueServer"] = VerifC07RogueServer }
+func init() {
+	VfHarnesses["VerifC07RogueServer"] = VerifC07RogueServer
+	VfHarnesses["VerifC07OwnServer"] = VerifC07OwnServer
+}
 
+// vfServerPeer is the remote server of a client-side handshake, as seen by the handshake contract model.
 type vfServerPeer struct {
 	net.Conn
 	Proto              string
@@ -44,83 +47,96 @@ func vfRequestOf(cfg *tls.Config) *types.GenerateServerCertificatesRequest {
 	return req
 }
 
-// C07 (safety half): a node completes the handshake only with a peer that holds the key of a leaf which
-// chains to a CA in the node's own bundles and carries this connection's nonce.
+func vfPreferenceOf(cfg *tls.Config) string {
+	for _, p := range cfg.NextProtos {
+		if strings.HasPrefix(p, nodeenrollment.CertificatePreferenceV1Prefix) {
+			return strings.TrimPrefix(p, nodeenrollment.CertificatePreferenceV1Prefix)
+		}
+	}
+	return ""
+}
+
+// vfDialOptions: what protocol.Dial adds to the client configuration (a server name), and what an application may
+// add (state, extra ALPN protocols).
+func vfDialOptions() []nodeenrollment.Option {
+	var opts []nodeenrollment.Option
+	if vf.Bool("dialer-sets-server-name") {
+		opts = append(opts, nodeenrollment.WithServerName("server.example"))
+	}
+	if vf.Bool("node-supplies-state") {
+		opts = append(opts, nodeenrollment.WithState(vfs.State("some-state")))
+	}
+	if vf.Bool("application-adds-a-protocol") {
+		opts = append(opts, nodeenrollment.WithExtraAlpnProtos([]string{"app-proto"}))
+	}
+	return opts
+}
+
+// C07 (safety): a registered node (universe key 2, both chains valid) completes the client handshake only with a
+// peer that holds the key of a leaf which chains to a CA in the node's own bundles AND carries this connection's
+// fresh nonce. Rogue peers: a certificate the real server minted for another connection of the same node, a
+// foreign-root or self-signed leaf carrying this nonce, another registered node's own certificate (trusted root,
+// no nonce).
 func VerifC07RogueServer() {
 	ctx := context.Background()
-	st := &vfs.Storage{}
 	t0 := vf.Now()
-	deadline := t0.Add(time.Second)
-	ok := func(step string, err error) {
-		vf.Assume(vf.TimeLE(vf.Now(), deadline))
-		vf.Assert("honest-step-succeeds:"+step, err == nil)
-		vf.Assume(err == nil)
+	vf.ShortScenario(t0, time.Second)
+	st, creds := vfC16Server(ctx, t0)
+	cfgs, err := nodetls.ClientConfigs(ctx, creds, vfDialOptions()...)
+	if err != nil || len(cfgs) != 2 {
+		panic("client configs")
 	}
-	mkRoot := func(k int, id string) *types.RootCertificate {
-		tmpl := &x509.Certificate{SubjectKeyId: vf.Pkix(k), Subject: pkix.Name{CommonName: "root"}, SerialNumber: big.NewInt(1),
-			NotBefore: t0.Add(-time.Hour), NotAfter: t0.Add(time.Hour), IsCA: true, BasicConstraintsValid: true}
-		der := vfs.MkCert(tmpl, tmpl, k, k)
-		return &types.RootCertificate{Id: id, PublicKeyPkix: vf.Pkix(k), PrivateKeyPkcs8: vf.Pkcs8(k), PrivateKeyType: types.KEYTYPE_ED25519,
-			CertificateDer: der, NotBefore: timestamppb.New(tmpl.NotBefore), NotAfter: timestamppb.New(tmpl.NotAfter)}
-	}
-	ok("store-roots", (&types.RootCertificates{Id: nodeenrollment.RootsMessageId, Current: mkRoot(0, "current"), Next: mkRoot(1, "next")}).Store(ctx, st))
-
-	// honest enrollment with the library's own code
-	nodeSt := &vfs.Storage{}
-	creds, err := types.NewNodeCredentials(ctx, nodeSt)
-	ok("new-creds", err)
-	freq, err := creds.CreateFetchNodeCredentialsRequest(ctx)
-	ok("fetch-req", err)
-	_, err = registration.AuthorizeNode(ctx, st, freq)
-	ok("authorize", err)
-	fresp, err := registration.FetchNodeCredentials(ctx, st, freq)
-	ok("fetch", err)
-	_, err = creds.HandleFetchNodeCredentialsResponse(ctx, nodeSt, fresp)
-	ok("handle", err)
-
-	cfgs, err := nodetls.ClientConfigs(ctx, creds)
-	ok("client-configs", err)
-	vf.Assert("at-least-one-config", len(cfgs) >= 1)
-	cfg := cfgs[0]
+	cfg := cfgs[vf.Int("config-tried", 0, 1)]
 	thisReq := vfRequestOf(cfg)
+	rootTmpl := vfs.RootTemplate(0, t0.Add(-time.Hour), t0.Add(time.Hour))
 
-	// what the rogue server presents
-	kind := vf.Int("server-chain-kind", 0, 3)
+	kind := vf.Int("server-chain-kind", 0, 4)
 	var chain [][]byte
+	var key []byte
 	switch kind {
 	case 0: // the real server's just-in-time certificate for THIS nonce
 		resp, err := nodetls.GenerateServerCertificates(ctx, st, thisReq)
-		ok("server-certs", err)
-		chain = [][]byte{resp.CertificateBundles[0].CertificateDer, resp.CertificateBundles[0].CaCertificateDer}
-	case 1: // a certificate the real server minted for ANOTHER connection of the same node (stale)
+		if err != nil {
+			panic(err)
+		}
+		chain, key = [][]byte{resp.CertificateBundles[0].CertificateDer, resp.CertificateBundles[0].CaCertificateDer}, resp.CertificatePrivateKeyPkcs8
+	case 1: // a certificate (and its key) the real server minted for ANOTHER connection of the same node
 		other, err := nodetls.ClientConfigs(ctx, creds)
-		ok("other-client-configs", err)
+		if err != nil {
+			panic(err)
+		}
 		resp, err := nodetls.GenerateServerCertificates(ctx, st, vfRequestOf(other[0]))
-		ok("server-certs-other", err)
-		chain = [][]byte{resp.CertificateBundles[0].CertificateDer, resp.CertificateBundles[0].CaCertificateDer}
+		if err != nil {
+			panic(err)
+		}
+		chain, key = [][]byte{resp.CertificateBundles[0].CertificateDer, resp.CertificateBundles[0].CaCertificateDer}, resp.CertificatePrivateKeyPkcs8
 	case 2: // foreign root, leaf carries this nonce
-		ftmpl := &x509.Certificate{SubjectKeyId: vf.Pkix(5), Subject: pkix.Name{CommonName: "foreign"}, SerialNumber: big.NewInt(1),
+		ftmpl := &x509.Certificate{SubjectKeyId: vf.Pkix(5), Subject: pkix.Name{CommonName: "root"}, SerialNumber: big.NewInt(1),
 			NotBefore: t0.Add(-time.Hour), NotAfter: t0.Add(time.Hour), IsCA: true, BasicConstraintsValid: true}
-		fder := vfs.MkCert(ftmpl, ftmpl, 5, 5)
 		leaf := vfs.MkCert(&x509.Certificate{Subject: pkix.Name{CommonName: "x"}, SerialNumber: big.NewInt(2),
 			DNSNames: []string{base64.RawStdEncoding.EncodeToString(thisReq.Nonce)}, ExtKeyUsage: []x509.ExtKeyUsage{x509.ExtKeyUsageServerAuth},
 			NotBefore: ftmpl.NotBefore, NotAfter: ftmpl.NotAfter}, ftmpl, 6, 5)
-		chain = [][]byte{leaf, fder}
-	default: // self-signed leaf carrying this nonce
-		stmpl := &x509.Certificate{Subject: pkix.Name{CommonName: "self"}, SerialNumber: big.NewInt(3),
+		chain, key = [][]byte{leaf, vfs.MkCert(ftmpl, ftmpl, 5, 5)}, vf.Pkcs8(6)
+	case 3: // self-signed leaf carrying this nonce, under the real root's name
+		stmpl := &x509.Certificate{Subject: pkix.Name{CommonName: "root"}, SerialNumber: big.NewInt(3),
 			DNSNames: []string{base64.RawStdEncoding.EncodeToString(thisReq.Nonce)}, ExtKeyUsage: []x509.ExtKeyUsage{x509.ExtKeyUsageServerAuth},
 			NotBefore: t0.Add(-time.Hour), NotAfter: t0.Add(time.Hour), IsCA: true, BasicConstraintsValid: true}
-		chain = [][]byte{vfs.MkCert(stmpl, stmpl, 6, 6)}
+		chain, key = [][]byte{vfs.MkCert(stmpl, stmpl, 6, 6)}, vf.Pkcs8(6)
+	default: // another registered node (universe key 3) presenting its own, genuinely issued certificate
+		chain, key = [][]byte{vfNodeLeaf(rootTmpl, 3, 0, x509.ExtKeyUsageClientAuth)}, vf.Pkcs8(3)
 	}
-	// the CA names a server announces are public: every rogue can announce the node's real CA
-	realCA, err := x509.ParseCertificate(creds.CertificateBundles[0].CaCertificateDer)
-	ok("parse-ca", err)
-	peer := &vfServerPeer{Proto: cfg.NextProtos[0], RequestsClientCert: true, AcceptableCAs: [][]byte{realCA.RawSubject}}
-	peer.Chain = chain
-	peer.HoldsLeafKey = vf.Bool("server-holds-leaf-key")
-	conn := tls.Client(peer, cfg)
-	herr := conn.HandshakeContext(ctx)
-	vf.Assume(vf.TimeLE(vf.Now(), deadline))
+	cas := [][]byte{creds.CertificateBundles[0].CaCertificateDer, creds.CertificateBundles[1].CaCertificateDer}
+	var subjects [][]byte
+	for _, der := range cas { // the CA names a server announces are public: every rogue can announce the node's real CAs
+		c, err := x509.ParseCertificate(der)
+		if err != nil {
+			panic(err)
+		}
+		subjects = append(subjects, c.RawSubject)
+	}
+	peer := &vfServerPeer{Proto: cfg.NextProtos[0], Chain: chain, HoldsLeafKey: vf.Bool("server-holds-leaf-key"), RequestsClientCert: true, AcceptableCAs: subjects}
+	peer.Conn = vf.RogueServerConn(peer.Proto, peer.Chain, key, peer.HoldsLeafKey, true, cas)
+	herr := tls.Client(peer, cfg).HandshakeContext(ctx)
 	if herr == nil {
 		vf.Reach("connected")
 		vf.Assert("only-the-real-servers-certificate-for-this-nonce", kind == 0)
@@ -129,4 +145,59 @@ func VerifC07RogueServer() {
 		vf.Reach("refused")
 		vf.Assert("own-server-is-accepted", vf.Not(vf.And(kind == 0, peer.HoldsLeafKey)))
 	}
+}
+
+// C07 (own server): each client configuration names a distinct one of the node's chains as its certificate
+// preference, and a server that still recognizes only ONE of the node's two roots (the other was rotated away) is
+// reached through the configuration for that root: the real server-side code (certificate generation, ServerConfig,
+// its GetCertificate and VerifyConnection callbacks) serves the preferred chain, and the node's handshake with it
+// succeeds.
+func VerifC07OwnServer() {
+	ctx := context.Background()
+	t0 := vf.Now()
+	vf.ShortScenario(t0, time.Second)
+	st, creds := vfC16Server(ctx, t0)
+	vf.AppendSpare(1) // whatever capacity the runtime gives the ALPN slices
+	cfgs, err := nodetls.ClientConfigs(ctx, creds, vfDialOptions()...)
+	vf.AppendSpare(0)
+	vf.Assert("client-configs-built", err == nil)
+	vf.Assert("one-config-per-valid-chain", len(cfgs) == 2)
+	if err != nil || len(cfgs) != 2 {
+		return
+	}
+	id0, _ := nodeenrollment.KeyIdFromPkix(vf.Pkix(0))
+	id1, _ := nodeenrollment.KeyIdFromPkix(vf.Pkix(1))
+	p0, p1 := vfPreferenceOf(cfgs[0]), vfPreferenceOf(cfgs[1])
+	vf.Assert("each-config-prefers-a-different-chain", vf.Or(vf.And(p0 == id0, p1 == id1), vf.And(p0 == id1, p1 == id0)))
+	// the server kept only one of the two roots the node knows
+	surviving := vf.Int("surviving-root", 0, 1)
+	wantPref := id0
+	if surviving == 1 {
+		wantPref = id1
+	}
+	connected := false
+	for _, cfg := range cfgs {
+		if vfPreferenceOf(cfg) != wantPref {
+			continue // the server no longer has that root: this attempt fails, the dialer tries the next configuration
+		}
+		req := vfRequestOf(cfg)
+		resp, err := nodetls.GenerateServerCertificates(ctx, st, req)
+		vf.Assert("server-generates-certificates-for-its-node", err == nil)
+		if err != nil {
+			return
+		}
+		b := resp.CertificateBundles[surviving]
+		peer := &vfServerPeer{Proto: cfg.NextProtos[0], Chain: [][]byte{b.CertificateDer, b.CaCertificateDer}, HoldsLeafKey: true, RequestsClientCert: true}
+		ca, err := x509.ParseCertificate(b.CaCertificateDer)
+		if err != nil {
+			panic(err)
+		}
+		peer.AcceptableCAs = [][]byte{ca.RawSubject}
+		peer.Conn = vf.RogueServerConn(peer.Proto, peer.Chain, resp.CertificatePrivateKeyPkcs8, true, true, [][]byte{b.CaCertificateDer})
+		if tls.Client(peer, cfg).HandshakeContext(ctx) == nil {
+			connected = true
+		}
+	}
+	vf.Assert("node-connects-through-the-chain-the-server-still-recognizes", connected)
+	vf.Reach("end")
 }
